@@ -939,11 +939,16 @@ class Buffer(Iterable):
             return
         self._stopped.set()
         tasks = self._tasks
-        while not tasks.empty():
-            _ = tasks.get()
-        # `tasks` is now empty. The thread needs to put at most one
-        # more element into the queue, which is safe.
-        self._worker.join()
+        while True:
+            while not tasks.empty():
+                _ = tasks.get()
+            # The thread may still need to put the element it is holding,
+            # the end marker, or an exception into the queue, which may be
+            # more than the queue can take; keep the queue drained until
+            # the thread has exited.
+            self._worker.join(timeout=0.01)
+            if not self._worker.is_alive():
+                break
         self._stopped = None
 
     def __iter__(self):
